@@ -101,11 +101,12 @@ func c24Gen(r *rng.Rand, i int, tier string) interface{} {
 	mode := r.Intn(3)
 	kindOfHistory := r.Intn(100) // < 45: append-only in order; else mixed
 	var written []int64
+	lateIn := int64(0) // an epoch in the first upper-bound window of the last multi-window write
 	for w := 0; w < nw; w++ {
 		n := 1 + r.Intn(maxRows)
 		kind := 0 // append after everything written so far
 		if kindOfHistory >= 45 && w > 0 {
-			kind = []int{0, 0, 1, 1, 2, 2, 3}[r.Intn(7)]
+			kind = []int{0, 0, 1, 1, 2, 2, 3, 4, 4}[r.Intn(9)]
 		}
 		var bars []c24Bar
 		switch kind {
@@ -138,6 +139,23 @@ func c24Gen(r *rng.Rand, i int, tier string) interface{} {
 			for j := 0; j < n; j++ {
 				t += []int64{60, 60, 120, 300, 900}[r.Intn(5)]
 				bars = append(bars, c24MkBar(r, t, mode))
+			}
+		case 4: // a write spanning two or more upper-bound windows, then (next write) a late bar in the EARLIER of them
+			if r.Bool() || len(written) == 0 {
+				for j := 0; j < n+1; j++ {
+					cur += []int64{60, ub, ub + 60, 2 * ub}[r.Intn(4)]
+					bars = append(bars, c24MkBar(r, cur, mode))
+				}
+				lateIn = bars[0].Epoch
+			} else {
+				t := c24TruncS(ub, lateIn) + r.Range(0, ub/60-1)*60
+				if lateIn == 0 {
+					t = written[0] + 60
+				}
+				bars = append(bars, c24MkBar(r, t, mode))
+				if r.Chance(30) {
+					bars = append(bars, c24MkBar(r, t+60, mode))
+				}
 			}
 		default: // a write whose rows are not in time order
 			for j := 0; j < n; j++ {
@@ -406,7 +424,28 @@ func c24Run(raw json.RawMessage) (res Result, err error) {
 				}
 			}
 		}
+		mirrorSame := true // the modelled original behaviour yields exactly these destination buckets
 		if !res.Holds {
+			md, _ := c24Mirror(dsecs, in.Writes)
+			for k := range in.Dests {
+				var got []c24Bar
+				if n := len(obs.Snaps); n > 0 {
+					got = obs.Snaps[n-1][k]
+				}
+				canon := make([]c24Bar, len(md[k]))
+				for j, b := range md[k] { // NaNs are canonicalised in the observed bars
+					f := func(v uint32) uint32 { return uint32(c23F32Bits(math.Float32frombits(v))) }
+					canon[j] = c24Bar{Epoch: b.Epoch, O: f(b.O), H: f(b.H), L: f(b.L), C: f(b.C), V: f(b.V)}
+				}
+				if !c24SameBars(got, canon) {
+					mirrorSame = false
+				}
+			}
+		}
+		if !res.Holds && !mirrorSame {
+			res.Detail += " [not the behaviour of the trigger as modelled at HEAD: unclassified]"
+		}
+		if !res.Holds && mirrorSame {
 			switch {
 			case unsorted:
 				res.Class = "unsorted-write"
